@@ -22,8 +22,9 @@ PROP = "C11"
 LEVEL = "model_checking"
 RULE = ("copy points (clone of every node x children x keep_id, export_leaf of every node, values getter, "
         "values passed in, template clone_section) x all edit sequences up to the bound from an edit alphabet "
-        "touching every mutable piece of state, applied to the copy and, symmetrically, to the original; "
-        "non-trivial = the edit sequence changed the edited side")
+        "touching every mutable piece of state, applied to the copy and, symmetrically, to the original; copies that "
+        "carry link state: edits on both sides in every interleaving, each side compared with its twin that saw "
+        "only its own edits; non-trivial = the edit sequence changed the edited side")
 WATCHDOG_S = 60
 
 
@@ -540,7 +541,7 @@ def _run_case(case, scratch):
             "node": node_tag(nodes(build_doc_cached(docname))[pt[1]]) if pt[1] is not None else "template-section",
             "children": pt[2] if len(pt) > 2 else None, "keep_id": pt[3] if len(pt) > 3 else None,
             "side_edited": case["side"] if case["side"] != "both" else [e[0] for e in case["edits"]],
-            "edits": [e[-1] for e in case["edits"]]}, case,
+            "edits": [e[-1] for e in case["edits"]], "pre": list(PRE_TAGS)}, case,
             observed=observed, explain=explain))
     try:
         kind, orig, cp, cfails = make_copy(doc, pt, scratch)
@@ -631,6 +632,11 @@ def targets_state(targets, doc):
     return [[snapshot.snap(t), t.get_path(), id(t) in theirs] for t in targets]
 
 
+# tags describing the pre-state of the comparison that is being judged (part of the failure description, so that a known
+# finding can be matched narrowly); set by _run_two_sided
+PRE_TAGS = []
+
+
 def _run_two_sided(case, docname, doc, cp, fail, fails):
     """case["edits"] = [[side, node index, edit], ...]; the original side is the whole document."""
     pt = case["point"]
@@ -643,10 +649,10 @@ def _run_two_sided(case, docname, doc, cp, fail, fails):
     baseline_defect = False
     for sd, i, e in case["edits"]:
         other = "original" if sd == "copy" else "copy"
-        # TODO baseline-defect: a cloned linking Section keeps the link target *of the original document* as its
-        # merged equivalent (also below Document.clone, where the copy has a target of its own), so clean /
-        # resolve / unlink / finalize on the copy give another result once that target has been edited. The
-        # twin comparison of the copy is skipped for exactly these cases; drop `targets` when /repo is repaired.
+        # A cloned linking Section keeps the link target *of the original document* as its merged equivalent (also below
+        # Document.clone, where the copy has a target of its own), so clean / resolve / unlink / finalize on the copy
+        # give another result once that target has been edited: known finding KF-C11-copy-keeps-the-original-link-target.
+        # The comparison is made and tagged, so that nothing but this situation is matched by the finding.
         if sd == "copy" and targets and targets_state(targets, doc) != targets_at_copy_time:
             baseline_defect = True
         before = cur[other] if cur[other] is not None else snapshot.snap(roots[other])
@@ -665,8 +671,9 @@ def _run_two_sided(case, docname, doc, cp, fail, fails):
             cur[sd] = snapshot.snap(roots[sd])
     if not fails:
         for sd in ("original", "copy"):
+            del PRE_TAGS[:]
             if sd == "copy" and baseline_defect:
-                continue                  # TODO baseline-defect (see above)
+                PRE_TAGS.append("copy-edited-after-the-original-link-target-it-still-refers-to-was-edited")
             own = [[i, e] for s_, i, e in case["edits"] if s_ == sd]
             # (in the twin every own edit finds its object: the other side's edits are all that differs)
             t_results, t_snap = twin(docname, pt, sd, own)
@@ -676,6 +683,7 @@ def _run_two_sided(case, docname, doc, cp, fail, fails):
                 fail("own-edits-have-another-effect-after-the-other-side-was-edited", snapshot.short(d),
                      explain="the %s went through %r; without the edits of the other side (%r) the same edits "
                              "leave it different at %s" % (sd, own, case["edits"], d[0] if d else "?"))
+    del PRE_TAGS[:]
     changed = any(cur[sd] != start[sd] for sd in roots)
     return {"failures": fails, "outcomes": ["edited-both-sides"], "nontrivial": int(changed), "execs": 1}
 
@@ -691,13 +699,23 @@ def build_doc_cached(docname="main"):
 
 def check(tier):
     run = report.Run(PROP, tier, LEVEL, RULE, assumptions=[
-        "one document family member (every dtype class incl. tuples, cardinalities, one resolved link) carries all copy points",
+        "three document family members carry all copy points: main (every kind of node, cardinalities, repositories, "
+        "unnamed objects, one resolved link), dtypes (one Property per data type family and spelling of the type "
+        "name), links (resolved links that took over definition / reference from a target with children)",
+        "two-sided sequences use the link alphabet (clean, finalize, resolve, unlink, definition, reference, rename, "
+        "values, remove first Property / Section) on every node of the copy and of the original document",
+        "known finding KF-C11-copy-keeps-the-original-link-target: the twin comparison of a copy made after the link "
+        "target in the ORIGINAL document - which the copy still holds as merged equivalent - has been edited is tagged",
         "the library's == ignores ids; snapshots compare everything else including order",
     ])
     cases = gen_cases(tier)
-    run.bounds = {"copy_points": len(copy_points()), "edit_sequences": "length 1 everywhere; length 2 (quick) / 3 "
-                  "(thorough) at %d selected copy points" % len(DEEP_POINTS)}
-    run.layer("cases", cases=len(cases))
+    run.bounds = {"copy_points": sum(len(copy_points(d)) for d in DOC_ORDER),
+                  "edit_sequences": "length 1 everywhere; length 2 (quick) / 3 (thorough) at %d selected copy points "
+                  "of main; both sides, length 2 (quick) / 3 (thorough, reduced alphabet), at every copy point of "
+                  "links whose copy carries link state" % len(DEEP_POINTS)}
+    run.layer("cases", cases=len(cases),
+              two_sided=sum(1 for c in cases if c["side"] == "both"),
+              **{"doc_" + d: sum(1 for c in cases if c.get("doc", "main") == d) for d in DOC_ORDER})
     par.run_cases(run, "checks.c11", cases, nchunks=par.JOBS * 16)
     return run.finish(reproduce=lambda f: replay(f))
 
